@@ -398,7 +398,7 @@ def ill_conditioned(A):
     """the 1e-9 comparison of a double solve with the exact one is only meaningful for cond(A) << 1e7 (singular: handled by the caller)"""
     if not A: return False
     c = np.linalg.cond(np.array([[float(x) for x in r] for r in A]))
-    return bool(np.isfinite(c) and c > 1e6)
+    return bool(np.isfinite(c) and c > 1e5)
 
 def nontrivial_system(A, b):
     u = gauss(A, b)
@@ -428,6 +428,7 @@ def run_fnnls(aa, inp):
         if len(st["index"]) == 0: pinit = None
         else: pinit = [j in st["index"] for j in range(n)]
         arg = np.array(st["index"], dtype=int)
+    if ill_conditioned(A): return band_row("fnnls", "(ill-conditioned system: cond > 1e5)")
     m = Mirror(); m.fnnls(A, b, Fraction(EPS * n), pinit)
     if m.margin < BAND: return band_row("fnnls")
     tally(m)
@@ -440,6 +441,7 @@ def run_fnnls(aa, inp):
 def run_posonly(aa, inp):
     from autoarray.inversion.inversion import inversion_util
     A, b = mats(inp); n = len(b)
+    if ill_conditioned(A): return band_row("posonly", "(ill-conditioned system: cond > 1e5)")
     mg = margin_pos_only(A, b, inp["uses_p"])
     if mg is None or mg < BAND: return band_row("posonly")
     settings = aa.SettingsInversion(positive_only_uses_p_initial=inp["uses_p"])
@@ -501,7 +503,7 @@ def inversion_rows(aa, inv, objs_desc, st, kind, nontrivial=True):
                     forced |= {j + off for j in range(o["params"]) if any(o["Mq"][r][j] != 0 for r in st["source_zero"])}
             off += o["params"]
     kept = [i for i in range(n) if i not in forced]
-    if ill_conditioned([[A[i][j] for j in kept] for i in kept]): return band_row(kind, "(ill-conditioned system: cond > 1e6)")
+    if ill_conditioned([[A[i][j] for j in kept] for i in kept]): return band_row(kind, "(ill-conditioned system: cond > 1e5)")
     if st["pos"]:
         mg = margin_pos_only([[A[i][j] for j in kept] for i in kept], [b[i] for i in kept], st["pinit"])
         if mg is None or mg < BAND: return band_row(kind)
